@@ -433,13 +433,26 @@ impl Prop for C10 {
     fn id(&self) -> &'static str {
         "C10"
     }
+    fn engine(&self) -> &'static str {
+        "asim + tsim (shuttle)"
+    }
     fn gen(&self, rng: &mut Rng, _t: Tier) -> Value {
+        // one run in eight drives the cache from several threads (engine B)
+        if rng.chance(1, 8) {
+            return serde_json::to_value(super::svcthreads::gen_cache(rng)).unwrap();
+        }
         serde_json::to_value(gen(rng)).unwrap()
     }
     fn valid(&self, v: &Value) -> bool {
+        if super::svcthreads::is_threads(v) {
+            return super::svcthreads::valid_json(v) && matches!(parse::<super::svcthreads::ScnT>(v).map(|s| s.kind), Some(super::svcthreads::Kind::Cache { .. }));
+        }
         parse::<Scn>(v).map(|s| valid(&s)).unwrap_or(false)
     }
     fn run(&self, v: &Value, ctx: &mut RunCtx) -> RunOutput {
+        if super::svcthreads::is_threads(v) {
+            return super::svcthreads::run_json(v, ctx, "C10");
+        }
         run(&parse::<Scn>(v).unwrap(), ctx)
     }
     fn runs(&self, t: Tier) -> u64 {
